@@ -26,6 +26,9 @@ def spec_arg_space(B, prog):
         return [(c, a) for c in (0, 1) for a in range(3)]
     if k == "vmap" and not B.GF[prog]["bcast"]:
         return [(a, b) for a in range(3) for b in range(3)]
+    if k == "scan":
+        n = B.GF[prog]["n"]
+        return [(c, xs) for c in range(3) for xs in ([(0,) * n, tuple(i % 3 for i in range(n)), (2,) * n])]
     return [0, 1, 2]
 
 
@@ -230,6 +233,8 @@ def run_b(chk, kinds, progs, n_per, *, chi2=False, history=0):
     """Record real-randomness events of the given op kinds for each program/argument, validate with TLC (GFITrace.tla)."""
     from . import gficheck
     gfj = gficheck.export_gf()
+    # top-level Scan programs are replayed in direction (A) only (GFITrace has no argument space for them)
+    progs = [p for p in progs if gfj["gf"][p]["kind"] != "scan"]
     jobs = [(gfj, chk.seed, prog, set(kinds), n_per, chi2, history) for prog in progs]
     if n_per * max(1, len(kinds)) + 4 * history >= 100:
         # long recordings run in short-lived worker processes (one per program): a process that stages and evaluates many
@@ -269,13 +274,23 @@ def run_b(chk, kinds, progs, n_per, *, chi2=False, history=0):
         worst = 1.0
         for (prog, arg), table in freq.items():
             N = sum(c for c, _ in table.values())
-            chi, cov = 0.0, 0.0
+            # cells with an expected count below 5 (and everything that was never observed) are pooled into one cell: the
+            # chi-square approximation is not valid for sparse cells
+            chi, cov, big, pool_c, pool_e = 0.0, 0.0, 0, 0.0, 0.0
             for (c, score) in table.values():
                 E = N * 2.0 ** (-score)
-                chi += (c - E) ** 2 / E
                 cov += E
-            chi += max(0.0, N - cov)
-            dof = 3 ** nleaves[prog] - 1
+                if E >= 5.0:
+                    chi += (c - E) ** 2 / E
+                    big += 1
+                else:
+                    pool_c += c
+                    pool_e += E
+            pool_e += max(0.0, N - cov)
+            if pool_e > 0:
+                chi += (pool_c - pool_e) ** 2 / pool_e
+                big += 1
+            dof = max(1, big - 1)
             pv = chi2_pvalue_upper(chi, dof)
             worst = min(worst, pv)
             if pv < 1e-9:
